@@ -62,14 +62,17 @@ def run(ctx, report, prop, spec_file, modules, reviewed=None, skip_sides=None, o
             report.count(R1)
             f = recv.resolve('_parse' if side == 'parse' else 'compose')
             report.touch(f)
-            if codec is not None and codec['evaluated']:
-                # decided against the wire format the entry describes by evaluating the function itself (sa/codecs.py)
+            cm = compare_with_spec(recv, side, ctx.canon, table, layout_entry)
+            if codec is not None and codec['evaluated'] and (cm.diffs or '%s/%s' % (name, side) in reviewed):
+                # the layout differs in shape from the table entry: decided against the wire format the entry describes by
+                # evaluating the function itself (sa/codecs.py)
                 report.count(R1, codec['runs'] // 2)
                 if side in codec['problems']:
                     report.add(R1, '%s@%s/codec' % (c.construct, side), '%s side differs from %s: %s' % (
                         'parser' if side == 'parse' else 'composer', entry.get('ref', 'the specification'), codec['problems'][side]))
+                else:
+                    report.sample({'rule': R1, 'class': name, 'side': side, 'verdict': 'codec evaluated against the wire format'}, 40)
                 continue
-            cm = compare_with_spec(recv, side, ctx.canon, table, layout_entry)
             for u in cm.unknown:
                 if side == 'compose' and u.startswith('length link of ') and u.endswith('parser use not analysable') and \
                         not (name.startswith('SshRecord') and u.startswith('length link of u1:')):   # SSH padding_length: formula tabulated by C07.R2/R3
